@@ -484,6 +484,8 @@ def install(I):
         r = args[0].v
         if r.kind == 'limitreader' and r.r.kind == 'kdfreader' and isinstance(r.n, int):
             return (TermBytes(kdf_block(I, r.r, r.n)), None)
+        if r.kind == 'limitreader' and r.r.kind == 'sentinel' and r.r.name == 'crypto/rand.Reader' and isinstance(r.n, int):
+            return (TermBytes(atom(I, 'rand', r.n)), None)
         raise Inconclusive('io.ReadAll of %s' % r.kind)
 
     def read_full(I, args, ins):
